@@ -6,6 +6,7 @@ from ..r_domains import rule_domains
 from ..r_construct import rule_changed_set
 from ..r_protocol import run_protocol
 from ..r_hygiene import rule_hygiene as _rule_hygiene
+from ..r_valence import rule_tentative_removal_set as _rule_tentative
 
 LEVEL = 'other'
 
@@ -22,4 +23,5 @@ def run(ck, repo):
     rule_changed_set(ck, repo)
     run_protocol(ck, repo, 'C04.D5-recalculation', only_dims={'HYDRO'})
     _rule_hygiene(ck, repo, 'C04.H-dataflow-hygiene', 'C04')
+    _rule_tentative(ck, repo, 'C04.D4-tentative-removal')
     rule_valence_parity(ck, repo, 'C04.D1-valence-parity')
